@@ -88,7 +88,7 @@ Lemma alloc_dyn_fields : forall st k o u st1, alloc_dyn st k o = (u, st1) ->
   st_handles st1 = st_handles st /\ st_ftab st1 = st_ftab st.
 Proof.
   intros st k o u st1. unfold alloc_dyn.
-  destruct (lookupD k (st_cache st)); [destruct (get_obj st u0); [destruct (obj_eqb o0 o)|]|];
+  destruct (lookupD k (st_cache st)); [destruct (get_obj st u0); [destruct (obj_eqb o0 o && negb (alive st u0))|]|];
     intros H; inversion H; subst; cbn; repeat split; reflexivity.
 Qed.
 
@@ -297,7 +297,7 @@ Qed.
 Lemma res_step_del_cells : forall st s c st' o, Res st -> step_del_cells st s c = (st', o) -> Res st'.
 Proof.
   intros st s c st' o H. unfold step_del_cells.
-  destruct (is_derived st c); intros E; inversion E; subst; [exact H|].
+  destruct (negb (is_defined st c)); intros E; inversion E; subst; [exact H|].
   apply res_create_derived, res_settle, res_clear_derived, res_purge, H.
 Qed.
 
